@@ -359,6 +359,10 @@ class Folder(FileSystemItemABC):
             # scan one file per timestep
             self.scan_countdown = self.scan_duration
             self.sys_log.info(f"Scanning folder {self.name} (id: {self.uuid})")
+            if self.scan_duration <= 0:
+                # nothing to wait for: the countdown logic only fires when it reaches 0 from above, so complete now
+                self.scan_countdown = 1
+                self._scan_timestep()
         else:
             # scan already in progress
             self.sys_log.info(f"Scan is already in progress {self.name} (id: {self.uuid})")
